@@ -240,7 +240,7 @@ func verifSpecCL(lowered string) primitive.ConsistencyLevel {
 //@   requires r != nil && r.client != nil && r.client.conn != nil && r.client.proxy != nil && r.session != nil && r.qp != nil && r.qp.$remaining >= 0
 //@   event $reqStarted
 //@   entry-set $lastReq = r
-//@   modifies r.done, r.host, r.$replies, $sends, r.qp.$remaining
+//@   modifies r.done, r.host, r.$replies, $sends, r.qp.$remaining, any(proxycore.ClientConn).inflight, any(proxycore.pendingRequests).$has, any(proxycore.pendingRequests).$tag, any(proxycore.pendingRequests).$val
 
 // Session lookup/creation touches the session table and the network, never the client's counters.
 //@ func proxy.Proxy.findSession [C07]
@@ -326,7 +326,7 @@ func verifSpecCL(lowered string) primitive.ConsistencyLevel {
 //@   ensures c.$sent >= old(c.$sent) && $reqStarted >= old($reqStarted)
 //@   ensures request-identity: $reqStarted == old($reqStarted) + 1 ==> fresh($lastReq) && $lastReq.client == c && $lastReq.stream == old(raw.Header.StreamId) && $lastReq.version == old(raw.Header.Version)
 //@   ensures error-identity: c.$sent == old(c.$sent) + 1 ==> $lastClient == c && $lastStream == old(raw.Header.StreamId) && $lastVersion == old(raw.Header.Version) && typeis($lastMsg, *message.ServerError)
-//@   modifies c.proxy.sessions[*], as(body.Message, *codecs.PartialQuery).Consistency, as(body.Message, *codecs.PartialExecute).Consistency, as(body.Message, *codecs.PartialBatch).Consistency, raw.Header.BodyLength, c.$sent, $reqStarted, $lastReq, $lastMsg, $lastStream, $lastVersion, $lastClient, $sends, $convertedBody
+//@   modifies c.proxy.sessions[*], as(body.Message, *codecs.PartialQuery).Consistency, as(body.Message, *codecs.PartialExecute).Consistency, as(body.Message, *codecs.PartialBatch).Consistency, raw.Header.BodyLength, c.$sent, $reqStarted, $lastReq, $lastMsg, $lastStream, $lastVersion, $lastClient, $sends, $convertedBody, any(proxycore.ClientConn).inflight, any(proxycore.pendingRequests).$has, any(proxycore.pendingRequests).$tag, any(proxycore.pendingRequests).$val
 
 // ---------------------------------------------------------------------------------------------
 // C09 (routing), C13 (handshake), C01 (one answer per decoded frame): the client reader
@@ -529,7 +529,7 @@ func verifSpecCL(lowered string) primitive.ConsistencyLevel {
 //@   ensures forwarded: !$qhHandled ==> c.$executed == old(c.$executed) + 1
 //@   ensures one-answer: (c.$sent - old(c.$sent)) + ($reqStarted - old($reqStarted)) == 1 && c.$sent >= old(c.$sent) && $reqStarted >= old($reqStarted)
 //@   ensures on-stream: c.$sent == old(c.$sent) + 1 ==> $lastClient == c && $lastStream == old(raw.Header.StreamId)
-//@   modifies *, c.$sent, c.$executed, $reqStarted, $sends, $convertedBody, $lastReq, $lastMsg, $lastStream, $lastVersion, $lastClient, $qhHandled, $selReached, $selDot, $selErr, $selQual, $selTable, $useTried, $useOK, $useKs, $useVersion, $useCompression
+//@   modifies *, c.$sent, c.$executed, $reqStarted, $sends, $convertedBody, $lastReq, $lastMsg, $lastStream, $lastVersion, $lastClient, $qhHandled, $selReached, $selDot, $selErr, $selQual, $selTable, $useTried, $useOK, $useKs, $useVersion, $useCompression, any(proxycore.ClientConn).inflight, any(proxycore.pendingRequests).$has, any(proxycore.pendingRequests).$tag, any(proxycore.pendingRequests).$val
 
 //@ func proxy.client.handlePrepare [C01, C09]
 //@   requires prepared-table: preparedOK(c) [C10]
@@ -540,7 +540,7 @@ func verifSpecCL(lowered string) primitive.ConsistencyLevel {
 //@   ensures forwarded: !$qhHandled ==> c.$executed == old(c.$executed) + 1
 //@   ensures one-answer: (c.$sent - old(c.$sent)) + ($reqStarted - old($reqStarted)) == 1 && c.$sent >= old(c.$sent) && $reqStarted >= old($reqStarted)
 //@   ensures on-stream: c.$sent == old(c.$sent) + 1 ==> $lastClient == c && $lastStream == old(raw.Header.StreamId)
-//@   modifies *, c.preparedSystemQuery[*], c.$sent, c.$executed, $reqStarted, $sends, $convertedBody, $lastReq, $lastMsg, $lastStream, $lastVersion, $lastClient, $qhHandled, $selReached, $selDot, $selErr, $selQual, $selTable
+//@   modifies *, c.preparedSystemQuery[*], c.$sent, c.$executed, $reqStarted, $sends, $convertedBody, $lastReq, $lastMsg, $lastStream, $lastVersion, $lastClient, $qhHandled, $selReached, $selDot, $selErr, $selQual, $selTable, any(proxycore.ClientConn).inflight, any(proxycore.pendingRequests).$has, any(proxycore.pendingRequests).$tag, any(proxycore.pendingRequests).$val
 
 //@ ghostvar $exId [16]byte
 //@ ghostvar $exLocal bool
@@ -555,7 +555,7 @@ func verifSpecCL(lowered string) primitive.ConsistencyLevel {
 //@   ensures local: $exLocal ==> c.$executed == old(c.$executed) && c.$sent == old(c.$sent) + 1 && $reqStarted == old($reqStarted)
 //@   ensures forwarded: !$exLocal ==> c.$executed == old(c.$executed) + 1
 //@   ensures one-answer: (c.$sent - old(c.$sent)) + ($reqStarted - old($reqStarted)) == 1 && c.$sent >= old(c.$sent) && $reqStarted >= old($reqStarted)
-//@   modifies *, c.$sent, c.$executed, $reqStarted, $sends, $convertedBody, $lastReq, $lastMsg, $lastStream, $lastVersion, $lastClient, $exId, $exLocal, $useTried, $useOK, $useKs, $useVersion, $useCompression
+//@   modifies *, c.$sent, c.$executed, $reqStarted, $sends, $convertedBody, $lastReq, $lastMsg, $lastStream, $lastVersion, $lastClient, $exId, $exLocal, $useTried, $useOK, $useKs, $useVersion, $useCompression, any(proxycore.ClientConn).inflight, any(proxycore.pendingRequests).$has, any(proxycore.pendingRequests).$tag, any(proxycore.pendingRequests).$val
 
 //@ func proxy.preparedIdKey
 //@   trusted
@@ -633,7 +633,7 @@ func verifSpecCL(lowered string) primitive.ConsistencyLevel {
 //@   ensures register-reply: $rxBodyTried && $rxBodyOK && typeis($rxMsg, *message.Register) ==> typeis($lastMsg, *message.Ready)
 //@   ensures register-membership: $rxBodyTried && $rxBodyOK && typeis($rxMsg, *message.Register) && as($rxMsg, *message.Register) != nil ==> c.$registered == (old(c.$registered) || exists(k, 0, len(as($rxMsg, *message.Register).EventTypes), as($rxMsg, *message.Register).EventTypes[k] == primitive.EventTypeSchemaChange))
 //@   ensures only-register-registers: !($rxBodyTried && $rxBodyOK && typeis($rxMsg, *message.Register)) ==> c.$registered == old(c.$registered)
-//@   modifies *, c.preparedSystemQuery[*], c.$registered, c.$sent, c.$executed, $reqStarted, $sends, $convertedBody, $lastReq, $lastMsg, $lastStream, $lastVersion, $lastClient, $qhHandled, $selReached, $selDot, $selErr, $selQual, $selTable, $exId, $exLocal, $useTried, $useOK, $useKs, $useVersion, $useCompression, $rxDecoded, $rxVersion, $rxStream, $rxBodyTried, $rxBodyOK, $rxMsg
+//@   modifies *, c.preparedSystemQuery[*], c.$registered, c.$sent, c.$executed, $reqStarted, $sends, $convertedBody, $lastReq, $lastMsg, $lastStream, $lastVersion, $lastClient, $qhHandled, $selReached, $selDot, $selErr, $selQual, $selTable, $exId, $exLocal, $useTried, $useOK, $useKs, $useVersion, $useCompression, $rxDecoded, $rxVersion, $rxStream, $rxBodyTried, $rxBodyOK, $rxMsg, any(proxycore.ClientConn).inflight, any(proxycore.pendingRequests).$has, any(proxycore.pendingRequests).$tag, any(proxycore.pendingRequests).$val
 
 // ---------------------------------------------------------------------------------------------
 // C01 / C04 / C05: the request object as a monitor
@@ -676,7 +676,7 @@ func verifSpecCL(lowered string) primitive.ConsistencyLevel {
 //@   ensures progress: old(r.done) ==> r.$replies == old(r.$replies) && $sends == old($sends)
 //@   ensures outcome: !old(r.done) ==> (r.done && r.$replies == 1 && $sends == old($sends)) || (!r.done && r.$replies == 0 && $sends == old($sends) + 1)
 //@   ensures r.qp.$remaining >= 0
-//@   modifies r.done, r.host, r.$replies, $sends, r.qp.$remaining
+//@   modifies r.done, r.host, r.$replies, $sends, r.qp.$remaining, any(proxycore.ClientConn).inflight, any(proxycore.pendingRequests).$has, any(proxycore.pendingRequests).$tag, any(proxycore.pendingRequests).$val
 
 // The classification functions. Idempotency of a statement text is a function of the text
 // ("idem.text", whose soundness is C06); of a prepared id, a function of the id during one
@@ -724,7 +724,7 @@ func verifSpecCL(lowered string) primitive.ConsistencyLevel {
 //@   requires r != nil && r.client != nil && r.client.conn != nil && r.client.proxy != nil && r.session != nil && r.qp != nil && r.qp.$remaining >= 0 && !$ciConsulted
 //@   ensures not-retried: r.state != isIdempotent ==> $sends == old($sends)
 //@   ensures at-most-one-send: $sends <= old($sends) + 1
-//@   modifies r.state, r.done, r.host, r.$replies, $sends, r.qp.$remaining, $ciConsulted, $ciResult
+//@   modifies r.state, r.done, r.host, r.$replies, $sends, r.qp.$remaining, $ciConsulted, $ciResult, any(proxycore.ClientConn).inflight, any(proxycore.pendingRequests).$has, any(proxycore.pendingRequests).$tag, any(proxycore.pendingRequests).$val
 
 // handleErrorResult ("lock before using"): applies the retry policy to an ERROR response.
 //   $hrErr / $hrMsg    the decoded error message;  $hrConsulted / $hrDecision  the policy's answer
@@ -757,7 +757,7 @@ func verifSpecCL(lowered string) primitive.ConsistencyLevel {
 //@   ensures (r.done ==> r.$replies == 1) && (!r.done ==> r.$replies == 0) && r.retryCount >= 0
 //@   ensures not-retried: !retried ==> !r.done && r.$replies == 0 && $sends == old($sends) && r.retryCount == old(r.retryCount)
 //@   ensures retried-outcome: retried ==> r.retryCount == old(r.retryCount) + 1 && ((r.done && $sends == old($sends)) || (!r.done && $sends == old($sends) + 1))
-//@   modifies r.state, r.done, r.host, r.retryCount, r.$replies, $sends, r.qp.$remaining, $hrErr, $hrMsg, $hrConsulted, $hrDecision, $hrRetryCalled, $hrNext, $ciConsulted, $ciResult
+//@   modifies r.state, r.done, r.host, r.retryCount, r.$replies, $sends, r.qp.$remaining, $hrErr, $hrMsg, $hrConsulted, $hrDecision, $hrRetryCalled, $hrNext, $ciConsulted, $ciResult, any(proxycore.ClientConn).inflight, any(proxycore.pendingRequests).$has, any(proxycore.pendingRequests).$tag, any(proxycore.pendingRequests).$val
 
 // OnResult: a backend answered. The first non-error result, or the first error the policy does not
 // retry, is forwarded - exactly once - on the client's stream; a retried error is not forwarded.
@@ -777,7 +777,7 @@ func verifSpecCL(lowered string) primitive.ConsistencyLevel {
 //@   requires r != nil && raw != nil && raw.Header != nil && r.client != nil && r.client.conn != nil && r.client.proxy != nil && r.client.codec != nil && r.session != nil && r.qp != nil && r.qp.$remaining >= 0 && r.client.proxy.config.RetryPolicy != nil
 //@   ensures at-most-one-send: $sends <= old($sends) + 1
 //@   ensures forwarded-on-own-stream: r.$replies == old(r.$replies) + 1 && old(raw.Header.OpCode) != primitive.OpCodeError ==> raw.Header.StreamId == r.stream
-//@   modifies r.state, r.done, r.host, r.retryCount, r.$replies, $sends, r.qp.$remaining, raw.Header.StreamId, $hrErr, $hrMsg, $hrConsulted, $hrDecision, $hrRetryCalled, $hrNext, $orDone, $orRetried, $ciConsulted, $ciResult
+//@   modifies r.state, r.done, r.host, r.retryCount, r.$replies, $sends, r.qp.$remaining, raw.Header.StreamId, $hrErr, $hrMsg, $hrConsulted, $hrDecision, $hrRetryCalled, $hrNext, $orDone, $orRetried, $ciConsulted, $ciResult, any(proxycore.ClientConn).inflight, any(proxycore.pendingRequests).$has, any(proxycore.pendingRequests).$tag, any(proxycore.pendingRequests).$val
 
 // The retry policy is consulted, never mutated, by the request path.
 //@ iface proxy.RetryPolicy.OnReadTimeout
